@@ -154,4 +154,21 @@ PROPS = {
         "assumptions": ["calc_filter_hash collision-free (a pair outside the supplied table hashes to a value no expected hash equals)", "GCS filter matching is an oracle (golomb-coded-set)"],
         "trusted_base": ["modelled: BlockFiltersProcess::execute, check_filters_data, could_request_more_block_filters, cached-hash reset"],
     },
+    "C02": {
+        "ops": [("c02", "RunC02", {"quick": 60, "thorough": 1500})],
+        "rule": "whole-client worlds with transaction bodies: fetch_header / fetch_transaction through the RPC implementations for hashes on the proven chain, on another "
+                "branch and unknown; fetch ticks; SendBlocksProof (v0 / v1) and SendTransactionsProof answers honest and mutated (foreign / dropped / extra header, found as "
+                "missing and vice versa, bad MMR proof, bad extension, newer last state, forged transaction under a valid Merkle path, wrong witnesses root, other block's "
+                "header) and unsolicited; peer disconnects and fresh proven peers; every event's status code, fetch tables and stored headers / transactions are compared "
+                "with Model/Fetch.v; SendBlock for proven matched blocks with authentic and foreign bodies; authenticity of everything served is judged against the chain",
+        "assumptions": ["MMR / Merkle / PoW / extra-hash verdicts are oracle inputs computed with direct library calls", "hash interning"],
+        "trusted_base": ["modelled: SendBlocksProofProcess::execute, SendTransactionsProofProcess::execute, check_block_hashes / check_tx_hashes, fetch tables, add_block acceptance"],
+    },
+    "C16": {
+        "ops": [("c02", "RunC02", {"quick": 60, "thorough": 1500})],
+        "rule": "same histories as C02: the fetch status machine (added / fetching / fetched / not_found) through the real RPCs, ticks, answers, rejections, disconnects; "
+                "after every history closing rounds with an honest proven peer must leave every requested hash fetched (on the chain) or reported missing (unknown)",
+        "assumptions": ["as C02"],
+        "trusted_base": ["modelled: fetch_header / fetch_transaction status, FetchInfo transitions, fetch_headers_txs assignment, remove_peer"],
+    },
 }
